@@ -20,8 +20,8 @@ const (
 	EvDelayFn // a delay function was consulted
 	EvCacheGet
 	EvCacheSet
-	EvCancel  // a cancellation source fired (A = source kind)
-	EvAsync   // async result observation (reader op); A = reader op kind
+	EvCancel     // a cancellation source fired (A = source kind)
+	EvAsync      // async result observation (reader op); A = reader op kind
 	EvStandalone // standalone API call result
 	EvNote
 )
@@ -31,15 +31,15 @@ const (
 	FDone = 1 << iota
 	FSuccess
 	FSuccessAll
-	FHasExec     // snapshot of execution statistics present
-	FIsCanceled  // exec.IsCanceled() at the observation point
-	FFirst       // IsFirstAttempt
-	FRetry       // IsRetry
-	FHedge       // IsHedge
-	FNilResult   // PolicyResult pointer was nil
-	FEndCanceled // end of run: the referenced execution's IsCanceled()
+	FHasExec       // snapshot of execution statistics present
+	FIsCanceled    // exec.IsCanceled() at the observation point
+	FFirst         // IsFirstAttempt
+	FRetry         // IsRetry
+	FHedge         // IsHedge
+	FNilResult     // PolicyResult pointer was nil
+	FEndCanceled   // end of run: the referenced execution's IsCanceled()
 	FEndChanClosed // end of run: its Canceled() channel is closed
-	FEndCtxErr   // end of run: its Context().Err() is set
+	FEndCtxErr     // end of run: its Context().Err() is set
 )
 
 // Event is one observation. Events are appended by the task that made the
@@ -78,7 +78,7 @@ type Log struct {
 type Violation struct {
 	Oracle string // stable oracle id, e.g. "C08.cause"
 	Msg    string
-	Seq    int // event at which it was detected, -1 = end of run
+	Seq    int    // event at which it was detected, -1 = end of run
 	Sig    string // signature used to match known findings
 }
 
